@@ -22,6 +22,9 @@ type KeylessScenario struct {
 	Base     []int   `json:"base"`
 	Branches [][]int `json:"branches"`
 	Result   []int   `json:"result"`
+	Alt      []int   `json:"alt"`       // the other admissible reading when a column was dropped
+	Drop     bool    `json:"drop"`      // the second branch has dropped the last column
+	MayRefuse bool   `json:"mayrefuse"` // the merge may be refused (never answered with other rows)
 }
 
 func keylessRow(r int) []string {
@@ -34,6 +37,19 @@ func keylessCSV(rows []int) []byte {
 		out = append(out, keylessRow(rows[i]))
 	}
 	return tbl.CSV(out, 0)
+}
+
+func mkDropped(db *tbl.SafeStore, rows []int) (*objects.Table, []byte, error) {
+	out := [][]string{{"a", "b"}}
+	for i := len(rows) - 1; i >= 0; i-- {
+		out = append(out, keylessRow(rows[i])[:2])
+	}
+	sum, err := tbl.Ingest(db, tbl.CSV(out, 0), nil, tbl.IngestOpts{})
+	if err != nil {
+		return nil, nil, err
+	}
+	t, err := objects.GetTable(db, sum)
+	return t, sum, err
 }
 
 // ReplayKeyless merges keyless tables with the real code the way `wrgl merge` drives it.
@@ -57,8 +73,11 @@ func ReplayKeyless(i int, raw []byte) child.Result {
 	}
 	var othT []*objects.Table
 	var othS [][]byte
-	for _, b := range sc.Branches {
+	for bi, b := range sc.Branches {
 		t, s, err := mk(b)
+		if sc.Drop && bi == 1 {
+			t, s, err = mkDropped(db, b)
+		}
 		if err != nil {
 			return child.Inconclusive(err)
 		}
@@ -79,11 +98,24 @@ func ReplayKeyless(i int, raw []byte) child.Result {
 	}
 	mc, err := m.Start()
 	if err != nil {
+		if sc.MayRefuse {
+			return child.Pass("keyless/refused")
+		}
 		return child.Fail("merge/keyless/start-error", map[string]interface{}{"error": err.Error()})
 	}
 	conflicts := 0
+	var removed map[int]struct{}
 	for mg := range mc {
 		if mg.ColDiff != nil {
+			// as `wrgl merge` does: the columns some branch removed are dropped from the result
+			for _, layer := range mg.ColDiff.Removed {
+				for col := range layer {
+					if removed == nil {
+						removed = map[int]struct{}{}
+					}
+					removed[int(col)] = struct{}{}
+				}
+			}
 			continue
 		}
 		conflicts++
@@ -92,7 +124,7 @@ func ReplayKeyless(i int, raw []byte) child.Result {
 	if err := m.Error(); err != nil {
 		return child.Fail("merge/keyless/error", map[string]interface{}{"error": err.Error()})
 	}
-	ch, err := m.SortedRows(context.Background(), nil)
+	ch, err := m.SortedRows(context.Background(), removed)
 	if err != nil {
 		return child.Fail("merge/keyless/error", map[string]interface{}{"error": err.Error()})
 	}
@@ -105,18 +137,33 @@ func ReplayKeyless(i int, raw []byte) child.Result {
 	if err := m.Error(); err != nil {
 		return child.Fail("merge/keyless/error", map[string]interface{}{"error": err.Error()})
 	}
-	want := []string{}
-	for _, r := range sc.Result {
-		want = append(want, strings.Join(keylessRow(r), ","))
+	rowsOf := func(ids []int) []string {
+		out := []string{}
+		for _, r := range ids {
+			cells := keylessRow(r)
+			if sc.Drop {
+				cells = cells[:2]
+			}
+			out = append(out, strings.Join(cells, ","))
+		}
+		sort.Strings(out)
+		return out
 	}
-	sort.Strings(want)
+	want := rowsOf(sc.Result)
 	sorted := append([]string{}, got...)
 	sort.Strings(sorted)
-	detail := map[string]interface{}{"expected_rows": want, "observed_rows": got, "conflicts": conflicts}
-	if conflicts > 0 {
+	detail := map[string]interface{}{"expected_rows": want, "observed_rows": got, "conflicts": conflicts, "dropped_column": sc.Drop}
+	if conflicts > 0 && !sc.Drop {
 		return child.Fail("merge/keyless/spurious-conflict", detail)
 	}
 	if strings.Join(sorted, "|") != strings.Join(want, "|") {
+		if sc.Drop && strings.Join(sorted, "|") == strings.Join(rowsOf(sc.Alt), "|") {
+			return child.Pass("keyless/drop-alt")
+		}
+		if sc.Drop {
+			detail["also_admissible"] = rowsOf(sc.Alt)
+			return child.Fail("merge/keyless/rows/column-dropped", detail)
+		}
 		return child.Fail("merge/keyless/rows", detail)
 	}
 	if strings.Join(sorted, "|") != strings.Join(got, "|") {
